@@ -77,7 +77,7 @@ def gen_cases(rng, tier):
                 raise RuntimeError("no valid case for shape")
     n_shape = len(items)
     # random depth-4 shapes
-    n4 = 300 if tier == "quick" else 4000
+    n4 = 200 if tier == "quick" else 4000
     for k in range(n4):
         r = rng.fork(f"c05_d4_{k}")
         fm = r.choice(["i16x2", "u8x3", "i32x1", "i16x2", "i32x1", "f64x1"])
@@ -89,7 +89,7 @@ def gen_cases(rng, tier):
                 items.append(S.build(it))
                 break
     # by_ref sequences: adaptors over one finite base come and go, exhaustion is reached through them
-    nseq = 250 if tier == "quick" else 3000
+    nseq = 200 if tier == "quick" else 3000
     for k in range(nseq):
         r = rng.fork(f"c05_seq_{k}")
         fm = r.choice(["i16x2", "u8x3", "i32x1", "f32x2"])
